@@ -817,7 +817,10 @@ def parse_tree_to_objgraph(
         # Collect rules for textx-tools
         if inst is not None and metamodel.textx_tools_support:
             pos = (inst._tx_position, inst._tx_position_end)
-            pos_rule_dict[pos] = inst
+            # Contained objects are processed first. If a contained object
+            # covers the same span keep it (the innermost one).
+            if pos not in pos_rule_dict:
+                pos_rule_dict[pos] = inst
 
         return inst
 
@@ -1028,6 +1031,11 @@ def parse_tree_to_objgraph(
 
                 # cleanup
                 for m in models:
+                    # References may have been resolved out of order
+                    # (Postponed). Keep the list for the tools sorted.
+                    m._tx_reference_resolver.pos_crossref_list.sort(
+                        key=lambda ref: ref.ref_pos_start
+                    )
                     _end_model_construction(m)
 
                 # final check that everything went ok
@@ -1058,7 +1066,7 @@ def parse_tree_to_objgraph(
             # Dict for storing rules where key is position of rule instance in
             # text. Sorted based on nested rules.
             model._pos_rule_dict = OrderedDict(
-                sorted(pos_rule_dict.items(), key=lambda x: x[0], reverse=True)
+                sorted(pos_rule_dict.items(), key=lambda x: (-x[0][0], x[0][1]))
             )
     # exception occurred during model creation
     except:  # noqa
@@ -1239,7 +1247,8 @@ class ReferenceResolver:
                         RefRulePosition(
                             name=crossref.obj_name,
                             ref_pos_start=crossref.position,
-                            ref_pos_end=crossref.position + len(resolved.name),
+                            ref_pos_end=crossref.position
+                            + len(str(crossref.obj_name)),
                             def_file_name=get_model(resolved)._tx_filename,
                             def_pos_start=resolved._tx_position,
                             def_pos_end=resolved._tx_position_end,
